@@ -107,6 +107,28 @@ def reconnects(ctx):
     return items
 
 
+def shutdowns(ctx):
+    """Session.shutdown() at every point of the re-prepare round trip: refused follow-up work fails the request"""
+    items = []
+    for where in range(5):
+        for pr in ([2, 7], [2, 8], [3, 7, 21]):
+            sc = base(script=[[0, None], [1, None]])
+            run = H.Run(sc)
+            orc = K.Oracle(sc, run, PID)
+            obs = []
+            seq = [['start'], ['resp', 0, [4, 7, 10]], ['run', 0], ['resp', 1, pr], ['run', 0], ['resp', 2, [0]]]
+            seq.insert(where + 1, ['shutdown'])
+            for op in seq:
+                if op[0] == 'run' and not run.env.queue:
+                    continue
+                if op[0] == 'resp' and op[1] not in run.open_attempts():
+                    continue
+                sc['ops'].append(op)
+                obs.append(orc.step(len(sc['ops']) - 1, op))
+            items.append((sc, obs, orc.bad, {'nontrivial': True}))
+    return items
+
+
 def concurrent(ctx):
     """two executions of one request in flight (speculative), both in the re-prepare phase: every pair of answers to the two
     PREPAREs, in both orders; once one of them failed the request, the other must not cause anything to be sent"""
@@ -163,6 +185,9 @@ def run(ctx):
     sq = sequences(ctx)
     items += sq
     ctx.count('source', 'sequences_around_unprepared', len(sq))
+    sd = shutdowns(ctx)
+    items += sd
+    ctx.count('source', 'session_shutdown', len(sd))
     rc = reconnects(ctx)
     items += rc
     ctx.count('source', 'reconnect_during_reprepare', len(rc))
